@@ -123,3 +123,32 @@ ADDENDA.update({
     "C19": "Round 5: name and comment bytes are read with exact-length primitives in both parsers.",
     "C20": "Round 5: opening an entry records its data start itself on every path (find_content is never skipped), so what a handle reports does not depend on a clone's history.",
 })
+
+# Round 6 additions
+for _pid, _txt in {
+    "C01": "Round 6: add_directory honours both separators; the record is pushed only after its local header was written; the ZIP64 back-patch offset uses the name's byte length.",
+    "C03": "Round 6: encrypted / data-descriptor flags are bits 0 / 3 of the flags word in both parsers (evaluated on all 65536 words); unix_mode() is None for an all-zero attribute word.",
+    "C06": "Round 6: the component walk is decided by bounded exploration (field-sensitive value flow with concrete depth) of every component sequence up to length 3 against the reference walk, whatever the spelling (for+match, try_fold over a closure/helper, signed counter); the shape table is the second opinion.",
+    "C07": "Round 6: every delivered metadata record of the streaming extractor has its mode consulted and applied; C06's walk decided by exploration.",
+    "C09": "Round 6: no vectored read/write with an unchecked count.",
+    "C11": "Round 6: no I/O Result is used as an iterator/Option (flat_map, flatten, filter_map, .ok()); ZipCryptoWriter::finish consumes self; an error carried inside the returned value counts as returned.",
+    "C14": "Round 6: raw_copy_file only delegates to raw_copy_file_rename on every path; the options value reaching start_entry is decided field by field (builder chain or struct literal).",
+    "C15": "Round 6: finish() consumes the encrypting writer and nothing outside zipcrypto.rs projects into it; key-schedule formulas decided by evaluation on sample points when the spelling is unknown; flag bits table.",
+    "C18": "Round 6: DateTime::default() is a valid constant date; range patterns and checked year narrowing are read as the same range table.",
+    "C19": "Round 6: the ZIP64 back-patch cannot overwrite name bytes (byte-length offset).",
+    "C20": "Round 6: the AtomicU64 wrapper's load/store are unconditional delegations to the std atomic.",
+}.items():
+    ADDENDA[_pid] = (ADDENDA.get(_pid, "") + " " + _txt).strip()
+
+_VF = "field-sensitive forward value-flow analysis (path-split dataflow over an abstract store with references, expression-tree values)"
+TECH_ADD.update({
+    "C01": _VF + " for the openers' options; reviewed refusal inventory",
+    "C02": "reviewed refusal inventory; clamp/narrowing provenance in 64-bit fields",
+    "C03": "reviewed refusal inventory; exhaustive evaluation of flag-bit extraction over the 16-bit flags word",
+    "C06": "bounded abstract exploration of the component walk (value flow with a concrete depth counter) over every component sequence up to length 3, compared with the reference walk",
+    "C07": "C06's exploration; path-enumerated mode table of the metadata phase",
+    "C12": "reviewed refusal inventory (writer side)",
+    "C14": _VF + " for the options value reaching start_entry",
+    "C15": "ownership-as-typestate (signature facts: finish consumes self; who-may-project into ZipCryptoWriter); evaluation of reconstructed key-schedule expressions on sample points",
+    "C18": _VF + " for the openers' options",
+})
